@@ -24,7 +24,23 @@ def check_sweeps(sess, op, kw, table):
     sess.stats["sweeps"] += sw.fwd
     if sw.fwd > nph * (maxiter + 1):
         sess.fail("C03", "terminates-within-maxiter", "%d sweeps for %d phase(s) with maxiter=%d" % (sw.fwd, nph, maxiter))
-    if nph != 1 or not sw.hist:
+    if not sw.hist:
+        return
+    if nph != 1:
+        # all-phase solve: every phase must have met the convergence predicate
+        # on its own last pair of iterates, within its own sweep budget
+        atol = sess.tol_atol
+        for ph in table.phases:
+            cnt, last = sw.by_phase.get(ph, (0, None))
+            if cnt > maxiter + 1:
+                sess.fail("C03", "terminates-within-maxiter", "%d sweeps in phase %r with maxiter=%d" % (cnt, ph, maxiter))
+            if last is None:
+                continue
+            v_in, i_in, v_out, i_out = last
+            if not (_allclose(v_in, v_out, vtol, atol) and _allclose(i_in, i_out, itol, atol)):
+                worst = max((abs(a - b) / max(abs(b), 1e-300), a, b) for a, b in list(zip(v_in, v_out)) + list(zip(i_in, i_out)) if a != b)
+                sess.fail("C03", "converged-at-requested-tolerance", "phase %r was returned after %d sweeps although its last two iterates differ by %.3g relative (%r vs %r); vtol=%g itol=%g" % (ph, cnt, worst[0], worst[1], worst[2], vtol, itol))
+        sess.stats["c03_sweep_checks_allphase"] += 1
         return
     v_in, i_in, v_out, i_out = sw.hist[-1]
     ph = table.phases[0]
